@@ -810,3 +810,48 @@ func ruleR10j(c *Ctx) {
 	c.check(collapses, "R10j", "soymsg.toUpperUnderscore collapses-underscore-runs", fd.Pos(), "runs of underscores are collapsed by a pattern that matches the whole run",
 		"toUpperUnderscore no longer collapses runs of underscores with a pattern that matches a whole run: names for identifiers with three or more consecutive underscores differ from the official ones")
 }
+
+// R10k: each way of writing an access in a data reference is parsed to one kind of node: in parseDataRef's
+// switch over the token, an arm builds access nodes of a single type. (Placeholder names are derived from
+// the kind of the last access — only a key access lends its name — and printing follows the node kind, so an
+// arm that turns $a['b'] into the node of $a.b changes names, ids and the printed text of what was written.)
+func ruleR10k(c *Ctx) {
+	p := c.pkg("parse")
+	fd := c.mustFunc("parse", "tree.parseDataRef")
+	if p == nil || fd == nil {
+		return
+	}
+	info := p.TypesInfo
+	n := 0
+	ast.Inspect(fd.Body, func(x ast.Node) bool {
+		cc, ok := x.(*ast.CaseClause)
+		if !ok || len(cc.List) == 0 {
+			return true
+		}
+		kinds := map[string]bool{}
+		ast.Inspect(&ast.BlockStmt{List: cc.Body}, func(y ast.Node) bool {
+			cl, ok := y.(*ast.CompositeLit)
+			if !ok {
+				return true
+			}
+			if tv, ok := info.Types[cl]; ok {
+				if r, tn, ok := relPkgOfType(tv.Type); ok && r == "ast" && strings.HasPrefix(tn, "DataRef") {
+					kinds[tn] = true
+				}
+			}
+			return true
+		})
+		if len(kinds) == 0 {
+			return true
+		}
+		n++
+		var toks []string
+		for _, e := range cc.List {
+			toks = append(toks, exprKey(e))
+		}
+		c.check(len(kinds) == 1, "R10k", "parse.tree.parseDataRef arm "+strings.Join(toks, ","), cc.Pos(), "builds "+strings.Join(sortedKeys(kinds), ""),
+			"this arm builds access nodes of different kinds ("+strings.Join(sortedKeys(kinds), ", ")+") for one source form: the same spelling is then named, fingerprinted and printed as if it had been written the other way")
+		return true
+	})
+	c.floor("R10k", "access-building arms of parseDataRef", 3, n)
+}
